@@ -60,6 +60,18 @@ CLAIMS = {
             "a SimFuture wired to their waiter's callback, the connection pool reserves its slot before suspending.",
             "Trusted: handlers atomic between suspension points; SimFuture semantics (C02).",
             "DESIGN.md §5 C09"),
+    "C08": ("sibling contract over all queue policies by feasible-path enumeration (insert/remove ↔ counters ↔ verdict), ordering-key shape, notify/poll protocol, acquire/release pairing on all exits",
+            "Decides for every QueuePolicy implementation, the Queue entity, the QueueDriver and the server variants that every path keeps "
+            "the conservation invariant enqueued = dequeued + dropped + held, inserts only under the capacity test, orders by the declared key, "
+            "notifies iff empty-before-push, delivers exactly what it pops, and releases exactly what it acquired on every exit.",
+            "Trusted: heapq order; atomic handlers; fairness/drop laws are numeric and not decided.",
+            "DESIGN.md §5 C08"),
+    "C10": ("guard dominance + predicate agreement of time_until_available with try_acquire over all policies + exactly-once path rules of the rate-limited entities",
+            "Decides that each policy admits only under its bound test after refreshing, that levels/rates are only written clamped, that "
+            "time_until_available returns zero only under try_acquire's admit predicate and otherwise a provably non-zero wait, and that "
+            "RateLimitedEntity/Inductor forward, queue or drop each request exactly once in arrival order with a single outstanding poll.",
+            "Trusted: exact nanosecond arithmetic of Duration/Instant; positive rates. Interval bounds themselves are numeric and not decided.",
+            "DESIGN.md §5 C10"),
 }
 
 NOT_YET = "rule pack not built yet in this session (see DESIGN.md §11); no check is claimed for it"
